@@ -487,6 +487,7 @@ func genScriptedJws(g *hx.Gen) {
 		}
 	}
 	g.Emit("jws key=%s %s sig=%s", key, genCommon(r, g), sig)
+	g.Stat("op.jws-scripted-signer")
 }
 
 // ecFromSeed derives a P-* private key from generator randomness (crypto/ecdsa key generation ignores
@@ -537,6 +538,7 @@ func genRealJws(g *hx.Gen) {
 		panic(err)
 	}
 	g.Emit("jws key=%s priv=%s %s sig=real", pubSpec(k.Public()), hx.Hex(der), genCommon(r, g))
+	g.Stat("op.jws-real-key-verified-by-stdlib")
 }
 
 func scriptedSig(r *hx.Rand, g *hx.Gen, key string) string {
@@ -578,7 +580,7 @@ func genRoll(g *hx.Gen) {
 
 func gen(g *hx.Gen) {
 	r := g.R
-	n := g.Count(6000, 300000)
+	n := g.Count(6000, 250000)
 	for i := 0; i < n; i++ {
 		switch c := r.Intn(20); {
 		case c < 9:
@@ -587,11 +589,14 @@ func gen(g *hx.Gen) {
 			genRealJws(g)
 		case c < 15:
 			g.Emit("jwk key=%s", scriptedPub(r, g))
+			g.Stat("op.jwk-thumbprint")
 		case c < 17:
 			key := r.Bytes(hx.Pick(r, []int{0, 1, 16, 32, 64, 65, 100}))
+			g.Stat("op.mac")
 			g.Emit("mac key=%s kid=%s url=%s raw=%s", hx.Hex(key), hx.Hex([]byte(genStr(r, g, 16, "kid"))), hx.Hex([]byte(genURL(r, g))), hx.Hex(r.Bytes(r.Intn(80))))
 		case c < 19:
 			key := r.Bytes(hx.Pick(r, []int{0, 16, 32, 32, 64, 65}))
+			g.Stat("op.eab")
 			g.Emit("eab acct=%s key=%s kid=%s url=%s", scriptedPub(r, g), hx.Hex(key), hx.Hex([]byte(genStr(r, g, 16, "kid"))), hx.Hex([]byte(genURL(r, g))))
 		case c < 20 && i%2 == 0:
 			genRoll(g)
